@@ -246,6 +246,12 @@ func (r *regionalClient) GenerateDataKey(ctx context.Context) (resp *kms.Generat
 	generateDataKeyTimer := metrics.GetOrRegisterTimer(fmt.Sprintf("%s.kms.aws.generatedatakey.%s", appencryption.MetricsPrefix, r.Region), nil)
 	generateDataKeyTimer.UpdateSince(start)
 
+	if err == nil && resp != nil {
+		// KMS reports the key ARN in KeyId however the key was named in the request (alias, key id). Name the key
+		// the way this client is configured, so the region that generated the data key is recognized as such.
+		resp.KeyId = &r.MasterKeyARN
+	}
+
 	return resp, err
 }
 
